@@ -204,6 +204,7 @@ def run(ctx):
     ctx.verify(eng, cn.VERIFY, min_obligations={cn.VERIFY[0].key: 12})
     eng2 = mk_engine(contracts=cn.SITE_CONTRACTS, field_classes=cn.SITE_FIELD_CLASSES)
     ctx.verify(eng2, cn.SITES, min_obligations={s.key: 20 for s in cn.SITES})
+    ctx.verify(cn.copy_port_engine(), cn.VERIFY_COPY_PORT, min_obligations={cn.VERIFY_COPY_PORT[0].key: 10})
     for key, obs, info in cn.loop_site_obligations():
         for u in info.get("unsupported", []):
             ctx.unsupported.append((key, u))
@@ -212,7 +213,8 @@ def run(ctx):
         ctx.discharge(obs, key + " [insertion loop body]", info)
     ctx.assumptions += ["callee contracts used at the insertion sites (io_for_resolving, copy_port, "
                         "which_portref_to_name, _Instance.connect) are frame-only abstractions: they do not touch "
-                        "module namespaces (connect: proved under C04; the others: assumed)",
+                        "module namespaces (connect: proved under C04; copy_port: proved here; io_for_resolving: proved under C07; "
+                        "which_portref_to_name: assumed)",
                         "loop insertion sites (arrays.py, flatten_bundles.py, inst_bundles.py): one arbitrary iteration "
                         "from an arbitrary state is proved; Path.to_name and the Instance constructor are abstracted "
                         "(a string / a new named Instance)"]
